@@ -72,6 +72,7 @@ type PkgContracts struct {
 	Regexes   map[string]string // named spec regexes (Go regexp syntax)
 	Langs     []*LangOblig
 	Guarded   map[string]string // var -> mutex
+	Domains   []*Clause         // assumed domain of configuration variables
 }
 
 var clauseKeywords = map[string]bool{
@@ -228,6 +229,12 @@ func ParseContractFile(path string) (*PkgContracts, error) {
 			}
 			l.Text = rest
 			pc.Langs = append(pc.Langs, l)
+		case "domain":
+			c, err := parseClause(rest, it.line)
+			if err != nil {
+				return nil, fmt.Errorf("%s:%v", path, err)
+			}
+			pc.Domains = append(pc.Domains, c)
 		case "pure":
 			pf, err := parsePure(rest, it.line)
 			if err != nil {
@@ -255,6 +262,13 @@ func ParseContractFile(path string) (*PkgContracts, error) {
 						fc.Opts[fs[0]] = "1"
 					}
 				case "requires", "ensures", "panics_iff", "split":
+					group := ""
+					if s.kw == "split" {
+						if m := regexp.MustCompile(`^([A-Za-z0-9_]+):\s+`).FindStringSubmatch(s.text); m != nil {
+							group = m[1]
+							s.text = s.text[len(m[0]):]
+						}
+					}
 					c, err := parseClause(s.text, s.line)
 					if err != nil {
 						return nil, fmt.Errorf("%s:%v", path, err)
@@ -267,6 +281,7 @@ func ParseContractFile(path string) (*PkgContracts, error) {
 					case "panics_iff":
 						fc.PanicsIff = c
 					case "split":
+						c.Tags = []string{group}
 						fc.Splits = append(fc.Splits, c)
 					}
 				case "ghost":
